@@ -493,32 +493,42 @@ class WorkTree:
             assert isinstance(commit, Commit), "HEAD must be a commit"
             tree_id = commit.tree
 
+        from .errors import NotTreeError
+
         for fs_path in fs_paths:
             tree_path = _fs_to_tree_path(fs_path)
             try:
                 tree = self._repo.object_store[tree_id]
                 assert isinstance(tree, Tree)
-                tree_entry = tree.lookup_path(
+                tree_entry: tuple[int, ObjectID] | None = tree.lookup_path(
                     self._repo.object_store.__getitem__, tree_path
                 )
-            except KeyError:
-                # if tree_entry didn't exist, this file was being added, so
-                # remove index entry
+            except (KeyError, NotTreeError):
+                # not in HEAD, or a leading directory is a file in HEAD
+                tree_entry = None
+            if tree_entry is not None and stat.S_ISDIR(tree_entry[0]):
+                # a directory in HEAD, a file in the index: nothing to restore here
+                tree_entry = None
+            if tree_entry is None:
+                # this file was being added, so remove index entry
                 try:
                     del index[tree_path]
                     continue
                 except KeyError as exc:
-                    raise KeyError(f"file '{tree_path.decode()}' not in index") from exc
+                    raise KeyError(
+                        f"file '{tree_path.decode(errors='replace')}' not in index"
+                    ) from exc
 
             st = None
             try:
                 st = os.lstat(os.path.join(self.path, fs_path))
-            except FileNotFoundError:
+            except (FileNotFoundError, NotADirectoryError):
                 pass
 
             blob_obj = self._repo[tree_entry[1]]
             assert isinstance(blob_obj, Blob)
             blob_size = len(blob_obj.data)
+            _remove_df_conflicts(index, tree_path)
 
             index_entry = IndexEntry(
                 ctime=(commit.commit_time, 0),
